@@ -827,6 +827,8 @@ class Lib:
                 return None
             ref.set_content(tuple(c) + (args[0],))
             return None
+        if isinstance(c, A.SeqVal):
+            raise EngineError(f"list.{meth} on a symbolic-length list")
         if meth == "extend":
             ref.set_content(tuple(c) + tuple(interp.iter_concrete(args[0])))
             return None
